@@ -48,7 +48,7 @@ func TestC10(t *testing.T) {
 	classSeen := map[string]int{}
 	classFailed := map[string]int{}
 
-	n := r.N(600, 8000)
+	n := r.N(600, 5000)
 	r.Cases("direct", n, 0, func(ci int, rng *rand.Rand) {
 		maxOps := 400
 		if rng.Intn(3) == 0 {
@@ -156,7 +156,7 @@ func TestC10(t *testing.T) {
 		"virtual-time gaps, mid-history restarts) run against the real Snapshotter with minCompactSize 1/64/1024/131072; non-trivial = "+
 		"non-empty final rejoin set, a non-zero clock and at least one compaction observed (inode change). e2e: real nodes on simnet, "+
 		"non-trivial = at least one peer alive and one peer gone at the crash.",
-		r.N(300, 4000),
+		r.N(300, 2500),
 		"the snapshot keeps up: at most 1500 events between quiescence points (tee buffers hold 2048), synctest.Wait() before every shutdown",
 		"member clock never reaches 2^64-1 (C19 finding); the clock is >= 1 when the snapshotter runs, as Serf.Create guarantees",
 		"every session ends with a clean snapshotter shutdown (crash points are C11)")
@@ -226,7 +226,7 @@ func c10E2E(t *testing.T, r *evid.Run, base string) {
 	// bubble (its semaphore channel would otherwise belong to the first bubble), and
 	// concurrent cases must not share a lookup key (singleflight): names carry the case number.
 	_, _ = net.LookupIP("verif-c10-prewarm/invalid")
-	n := r.N(48, 600)
+	n := r.N(48, 400)
 	r.Cases("e2e", n, 0, func(ci int, rng *rand.Rand) {
 		dir, err := os.MkdirTemp(base, "e")
 		if err != nil {
@@ -236,6 +236,8 @@ func c10E2E(t *testing.T, r *evid.Run, base string) {
 		defer os.RemoveAll(dir)
 		snapPath := filepath.Join(dir, "a.snap")
 		k := 1 + rng.Intn(4)
+		subnet := fmt.Sprintf("10.%d.%d", 1+ci/250, ci%250)
+		aIP := subnet + ".1"
 		peers := make([]*c10Peer, k)
 		used := map[string]bool{"A": true}
 		for i := range peers {
@@ -244,28 +246,30 @@ func c10E2E(t *testing.T, r *evid.Run, base string) {
 				name += "x"
 			}
 			used[name] = true
-			ip := fmt.Sprintf("10.0.1.%d", i+2)
+			// addresses are unique per case as well (a name ending in "/" makes the bare
+			// address part of the resolver's lookup key)
+			ip := fmt.Sprintf("%s.%d", subnet, i+2)
 			if rng.Intn(4) == 0 {
-				ip = fmt.Sprintf("fd00::1:%x", i+2)
+				ip = fmt.Sprintf("fd00::%x:%x", ci+1, i+2)
 			}
 			peers[i] = &c10Peer{name: name, ip: ip, fate: []string{"stay", "stay", "leave", "crash"}[rng.Intn(4)]}
 		}
 		nUser, nQuery := rng.Intn(4), rng.Intn(4)
 		type obs struct {
-			err                     string
-			members                 map[string]string // alive members of A (incl. itself) at the crash
-			memberTime              uint64
-			maxUser, maxQuery       uint64
-			snap                    c10State
-			attempts                map[string]int
-			packets                 int
+			err                         string
+			members                     map[string]string // alive members of A (incl. itself) at the crash
+			memberTime                  uint64
+			maxUser, maxQuery           uint64
+			snap                        c10State
+			attempts                    map[string]int
+			packets                     int
 			clockAfter, evAfter, qAfter uint64
-			gone                    int
+			gone                        int
 		}
 		var o obs
 		synctest.Test(t, c10Settled(func() {
 			sn := simnet.New(int64(ci) + 1)
-			a, err := cluster.Start(sn, cluster.Opts{Name: "A", IP: "10.0.1.1", Snap: snapPath})
+			a, err := cluster.Start(sn, cluster.Opts{Name: "A", IP: aIP, Snap: snapPath})
 			if err != nil {
 				o.err = "start A: " + err.Error()
 				return
@@ -356,7 +360,7 @@ func c10E2E(t *testing.T, r *evid.Run, base string) {
 				o.packets++
 				mu.Unlock()
 			}
-			a2, err := cluster.Start(sn, cluster.Opts{Name: "A", IP: "10.0.1.1", Snap: snapPath, Profile: "passive",
+			a2, err := cluster.Start(sn, cluster.Opts{Name: "A", IP: aIP, Snap: snapPath, Profile: "passive",
 				Mutate: func(c *serf.Config) { c.MemberlistConfig.DNSConfigPath = filepath.Join(dir, "no-resolv.conf") }})
 			if err != nil {
 				o.err = "restart A: " + err.Error()
